@@ -90,6 +90,52 @@ ACCEPT_EXPECT = {
 }
 
 
+def defer_recorded(F, rep, rule="DEFER-RECORDED"):
+    """an operator checker that recurses into tuple elements meets element nodes that hold no constraint of their own
+    (bin_op! stores the constraint on the two *operand* nodes only).  Where it answers `Ok` because an element is still
+    Unknown it must leave the requirement behind on both element nodes, or the element's later refinement - a parameter
+    unified at a call, a later statement - never re-checks the operator"""
+    fcc = F.fn(TC + "check_constraints")
+    dispatch = {}
+    for m in matches_on(fn_body(fcc), TCM + "Constraint"):
+        for arm, alt, vp in arm_alternatives(m):
+            if vp:
+                for c in nodes(arm["body"], "MethodCall"):
+                    cal = callee(c) or ""
+                    if cal.startswith(TC) and last(cal) in ACCEPT_EXPECT:
+                        dispatch.setdefault(last(cal), set()).add(last(vp))
+    n = 0
+    for name in ACCEPT_EXPECT:
+        fn = F.fn(TC + name)
+        rows = tc.accept_table(F, fn) or []
+        if not any(r["verdict"] == "recurse" for r in rows):
+            continue
+        done = set()
+        for r in rows:
+            if r["verdict"] != "ok" or not any("Unknown" in p for p in r["pats"]) or id(r["arm"]) in done:
+                continue
+            done.add(id(r["arm"]))
+            n += 1
+            recorded = {}
+            for c in nodes(r["arm"]["body"], "MethodCall"):
+                if callee(c) == TC + "add_constraint":
+                    node = tc.local_hid(c["args"][0])
+                    cn = tc.constraint_name(c["args"][2])
+                    con = peel(c["args"][2])
+                    payload = tc.local_hid(con["args"][0]) if con.get("k") == "Call" and con.get("args") else None
+                    if node is not None and cn in dispatch.get(name, ()):
+                        recorded[node] = payload
+            mirrored = len(recorded) == 2 and all(recorded.get(v) == k for k, v in recorded.items())
+            rep.ob(rule, "%s|unknown-arm" % name, mirrored,
+                   ("TypeChecker::%s records Constraint::%s on both nodes before accepting a pair with an Unknown side" % (
+                       name, "/".join(sorted(dispatch.get(name, ())))))
+                   if mirrored else
+                   ("TypeChecker::%s answers Ok for a pair with an Unknown side without recording anything on the two nodes; "
+                    "it also recurses into tuple elements, whose nodes carry no constraint: `(a, 1) + (\"s\", 2)` with `a` "
+                    "fixed to int by a later statement or call is accepted" % name), line_of(r["arm"]))
+    rep.floor(rule, "element-wise checkers with an Unknown arm", n, 5)
+
+
 def expand_rows(rows):
     """rows -> {(A,B): verdict} for concrete variant pairs, first match wins (guards treated as may-fail)"""
     table = {}
@@ -140,6 +186,7 @@ def accept(F, rep, rule="ACCEPT"):
             if r["verdict"] == "recurse" and r["pats"] == (frozenset(["Tuple"]), frozenset(["Tuple"])):
                 rep.ob(rule, "%s|tuple-length-guard" % name, r["guard"],
                        "element-wise tuple rule of %s is guarded by equal lengths" % name, line_of(r["arm"]))
+    defer_recorded(F, rep)
     # equ = unify
     fn = F.fn(TC + "equ")
     calls = [callee(c) for c in nodes(fn_body(fn)) if c.get("k") in ("Call", "MethodCall")]
@@ -435,7 +482,69 @@ def run(F, rep, tier):
     unification_core(F, rep)
     pairing(F, rep)
     declared_types_known(F, rep)
+    ret_fold(F, rep)
+    binder_typed(F, rep)
     tc.dropped_results(F, rep, "DROPPED-ERROR", ["sylt_compiler::typechecker::", "sylt_compiler::name_resolution::", "sylt_compiler::dependency::"])
+
+
+# every variable-valued field of the resolved AST, classified by reading name_resolution.rs: a *binder* introduces the
+# variable (the resolver fills it from new_var/push_var), a *use* refers to one found by lookup
+REF_FIELDS = {
+    ("Statement", "Blob", "var"): "binder", ("Statement", "Enum", "var"): "binder",
+    ("Statement", "Definition", "var"): "binder", ("Statement", "ExternalDefinition", "var"): "binder",
+    ("Expression", "Function", "params"): "binder", ("Expression", "Blob", "self_var"): "binder",
+    ("CaseBranch", "CaseBranch", "variable"): "binder",
+    ("Expression", "Read", "var"): "use", ("Expression", "Variant", "ty"): "use", ("Expression", "Blob", "blob"): "use",
+}
+# where the checker gives each binder its type: (function, root field of the index into self.variables)
+BINDER_SITES = {
+    ("Statement", "Blob", "var"): ("outer_statement", "var"), ("Statement", "Enum", "var"): ("outer_statement", "var"),
+    ("Statement", "Definition", "var"): ("definition", "var"), ("Statement", "ExternalDefinition", "var"): ("outer_statement", "var"),
+    ("Expression", "Function", "params"): ("type_from_function", "params[*].1"),
+    ("Expression", "Blob", "self_var"): ("expression", "self_var"),
+    ("CaseBranch", "CaseBranch", "variable"): ("expression", "branches[*].variable[*]"),
+}
+
+
+def binder_typed(F, rep, rule="BINDER-TYPED"):
+    """a variable the resolver introduces has the type Unknown until the checker ties `self.variables[v].ty` to
+    something; a binder the checker never looks at stays Unknown forever, and every deferred requirement on it (field
+    access, call, operator) is accepted"""
+    census = {}
+    for adt in ("Statement", "Expression", "CaseBranch", "IfBranch"):
+        a = F.adt(NR + adt)
+        for v in a["variants"]:
+            for f in v["fields"]:
+                if "usize" in f["ty"]:
+                    census[(adt, v["name"], f["name"])] = f["ty"]
+    rep.ob(rule, "census", set(census) == set(REF_FIELDS),
+           "variable-valued fields of the resolved AST are the %d classified ones (unclassified: %s; gone: %s)" % (
+               len(REF_FIELDS), sorted(set(census) - set(REF_FIELDS)), sorted(set(REF_FIELDS) - set(census))))
+    reads = {}
+    for fname in ("expression", "statement", "definition", "outer_statement", "type_from_function"):
+        fn = F.fn(TC + fname)
+        fl = Flow(fn, fn_body(fn))
+        for ix in nodes(fn_body(fn), "Index"):
+            base = peel(ix["e"])
+            if base.get("k") == "Field" and base["name"] == "variables":
+                reads.setdefault((fname, tc.root_field(fl, ix["i"])), []).append(ix)
+    for key, (fname, rf) in sorted(BINDER_SITES.items()):
+        got = reads.get((fname, rf), [])
+        rep.ob(rule, "%s::%s.%s" % key, bool(got),
+               ("TypeChecker::%s reads self.variables[%s] (%d site(s)): the binder gets its type there" % (fname, rf, len(got))) if got else
+               ("no arm of TypeChecker::%s looks up self.variables[%s]: the variable introduced by %s::%s.%s keeps the type "
+                "Unknown, so `%s.<anything>` and every operator on it are accepted" % (fname, rf, key[0], key[1], key[2],
+                                                                                        "self" if key[2] == "self_var" else key[2])),
+               line_of(got[0]) if got else F.fn(TC + fname)["sp"])
+
+
+def ret_fold(F, rep):
+    n = 0
+    for f in ("expression", "statement", "expression_block", "definition"):
+        fn = F.fn(TC + f)
+        rep.analysed(fn)
+        n += tc.ret_fold(F, rep, "RET-FOLD", fn)
+    rep.floor("RET-FOLD", "child results carrying a return type", n, 40)
 
 
 def declared_types_known(F, rep):
